@@ -380,6 +380,9 @@ func errOfClass(e string) error {
 		base = network.ErrUnknown
 	case "ECanceled":
 		base = network.ErrCanceled
+	case "ETooBig":
+		// as tcp.go receiveRawProd reports a frame above MaxPacketSize
+		return xerrors.Errorf("receiving: %w", xerrors.Errorf("%v sends too big packet: %v>%v: %w", "peer", 5000, 1000, network.ErrTooBig))
 	default:
 		return xerrors.New("unmarshaling: not a registered message")
 	}
